@@ -208,6 +208,72 @@ def history_record(mesh, with_geometry):
                 eq_user_options=dict(mesh.equilibrium.user_options))
 
 
+def build_circular(c):
+    from hypnotoad.cases import circular
+    from hypnotoad.core.mesh import BoutMesh
+
+    opts = dict(c["options"])
+    eq = circular.CircularEquilibrium(settings=opts)
+    mesh = BoutMesh(eq, opts)
+    mesh.geometry()
+    return eq, mesh
+
+
+def run_buildseq(config, outdir):
+    """C14: a sequence of complete builds in ONE interpreter; the artefacts of the last one are
+    kept.  config["seq"]: list of member configs; config["share_arrays"]: hand the same array
+    objects to consecutive identical builds."""
+    from hypnotoad.core.mesh import BoutMesh
+
+    meta = dict(config=config, outcome=None, builds=[])
+    warnings.simplefilter("ignore")
+    shared = None
+    try:
+        for k, mc in enumerate(config["seq"]):
+            last = k == len(config["seq"]) - 1
+            if mc.get("family", "G") == "circular":
+                eq, mesh = build_circular(mc)
+                extra = {}
+            else:
+                c = families.normalise(mc)
+                if config.get("share_arrays") and shared is not None:
+                    inp = shared
+                else:
+                    inp = families.build_inputs(c)
+                    inp["_fpol_kind"] = c["fpol"]
+                    inp["_pressure_kind"] = c["pressure"]
+                    shared = inp
+                extra = {}
+                if config.get("share_arrays"):
+                    # no defensive copies: this is the caller's-arrays clause
+                    from hypnotoad.cases import tokamak
+
+                    before = {kk: fp(inp[kk]) for kk in ("R1D", "Z1D", "psi2D", "psi1D", "fpol1D", "pressure")}
+                    eq = tokamak.TokamakEquilibrium(inp["R1D"], inp["Z1D"], inp["psi2D"], inp["psi1D"], inp["fpol1D"],
+                                                    pressure=inp["pressure"], wall=inp["wall"],
+                                                    settings=dict(c["options"]),
+                                                    nonorthogonal_settings=dict(c["nonorth"]) if c["nonorth"] else None)
+                    extra["input_fingerprints_before"] = before
+                    extra["input_fingerprints_after"] = {kk: fp(inp[kk]) for kk in before}
+                else:
+                    eq = build_equilibrium(c, inp, extra)
+                mesh = BoutMesh(eq, dict(c["options"]))
+                mesh.geometry()
+            meta["builds"].append(mc.get("label", "?"))
+            if last:
+                path = os.path.join(outdir, "grid.nc")
+                mesh.writeGridfile(path)
+                with open(os.path.join(outdir, "side.pkl"), "wb") as f:
+                    pickle.dump(dict(extra, eq=dict(user_options=dict(eq.user_options))), f, protocol=4)
+        meta["outcome"] = "ok"
+    except BaseException as e:  # noqa: BLE001
+        meta["outcome"] = "exception"
+        meta["exc_type"] = type(e).__name__
+        meta["exc_msg"] = str(e)[:2000]
+        meta["traceback"] = traceback.format_exc()[-3000:]
+    return meta
+
+
 def run_history(c, eq, outdir, meta):
     """E2: breadth-first exploration of redistributePoints histories from one start state with
     dill snapshots of the live mesh.  c["alphabet"]: list of settings dicts; c["first"]: indices
@@ -327,7 +393,22 @@ def main():
     os.dup2(log.fileno(), 1)
     os.dup2(log.fileno(), 2)
     try:
-        if config.get("family", "G") == "G":
+        if config.get("family", "G") == "buildseq":
+            t0 = time.time()
+            meta = run_buildseq(config, outdir)
+            meta["wall_s"] = time.time() - t0
+        elif config.get("family", "G") == "circular":
+            t0 = time.time()
+            meta = dict(config=config, outcome=None)
+            try:
+                warnings.simplefilter("ignore")
+                eq, mesh = build_circular(config)
+                mesh.writeGridfile(os.path.join(outdir, "grid.nc"))
+                meta["outcome"] = "ok"
+            except BaseException as e:  # noqa: BLE001
+                meta.update(outcome="exception", exc_type=type(e).__name__, exc_msg=str(e)[:2000])
+            meta["wall_s"] = time.time() - t0
+        elif config.get("family", "G") == "G":
             meta = run_config(config, outdir)
         else:
             from vlib import genother
